@@ -114,6 +114,12 @@ impl ValveState {
             }
             rules.push((k, s(t, 60)));
         }
+        // now and then a rule name is sent twice: the later pair is the one that counts (the reply is a
+        // list, the response a map)
+        if rules.len() >= 2 && rules.len() < max_rules as usize && t.draw(DATA, 8) == 0 {
+            let k = rules[t.draw(DATA, rules.len() as u64) as usize].0.clone();
+            rules.push((k, s(t, 20)));
+        }
         let (appid16, game_id) = match appid {
             Some(a) => {
                 // report it through the 16-bit field if it fits, else through the game id
